@@ -14,7 +14,8 @@
   establishes for reachable states), the engine contract of C11 (`casMissingNotFound = false`) and
   64-bit revisions: `WHyp`.
 
-  The recognisers modelled are the REPAIRED ones (/repo commits 4c41c58 and, for the compaction probe, 2870609).
+  The recognisers modelled are the REPAIRED ones (/repo commits 4c41c58, for the compaction probe 2870609, and for
+  `prev_kv` on the delete op c09cadc: `delete_with_prev_kv_rejected`, `old_delete_prev_kv_executed`).
   The full statement for transactions is now a theorem: `shim_sound` — every structurally valid transaction other
   than the compactor's (EXACTLY kube-apiserver's probe, compare / put / plain Get all on `compact_rev_key`:
   `compact_probe_shape_exact`, `shim_sound_except_probe`; a near miss of it is refused: `near_probe_rejected`)
@@ -58,11 +59,11 @@ theorem k8s_shapes_recognised (k v : Bytes) (lease : Int) (exp : Nat) :
     classify (k8sUpdate k v exp lease) = .update exp k v lease ∧
     (0 < exp → classify (k8sDelete k exp) = .delete exp k true) ∧
     classify (k8sDeleteUnguarded k) = .delete 0 k false := by
-  refine ⟨classify_create ⟨rfl, rfl, rfl, rfl, rfl⟩, ?_, ?_, classify_udelete rfl (plainGet_of_key k)⟩
+  refine ⟨classify_create ⟨rfl, rfl, rfl, rfl, rfl⟩, ?_, ?_, classify_udelete rfl rfl (plainGet_of_key k)⟩
   · exact classify_update' (n := exp) (p := { key := k, val := v, lease := lease }) (g := { key := k })
       ⟨rfl, rfl, rfl, rfl, rfl⟩ rfl rfl rfl (plainGet_of_key k)
   · intro h0
-    exact classify_gdelete (n := exp) ⟨rfl, rfl, rfl, rfl, rfl⟩ (by omega) rfl (plainGet_of_key k)
+    exact classify_gdelete (n := exp) ⟨rfl, rfl, rfl, rfl, rfl⟩ (by omega) rfl rfl (plainGet_of_key k)
 
 /-- ... and on any backend state with a consistent index record for the key they are answered with
 the projection etcd prescribes on the abstracted state: success flag, revision of the write, the
@@ -82,8 +83,8 @@ theorem k8s_shapes_accepted (c : Cfg) (s : BState) (m : Mvcc) (k v : Bytes) (lea
       (by omega) (by omega) ⟨hk, rfl, rfl, rfl⟩ hv (plainGet_of_key k) hw ha
   · intro h0 hle
     exact sound_gdelete_in c s m _ { key := k } { key := k } exp ⟨rfl, rfl, rfl, rfl, rfl⟩ (by omega) (by omega)
-      hk rfl (plainGet_of_key k) hw ha
-  · exact sound_udelete c s m { key := k } { key := k } hk rfl (plainGet_of_key k) hw ha
+      hk rfl rfl (plainGet_of_key k) hw ha
+  · exact sound_udelete c s m { key := k } { key := k } hk rfl rfl (plainGet_of_key k) hw ha
 
 /-- The bound `exp ≤ dealt` of `k8s_shapes_accepted` is tight: an expectation equal to the revision
 about to be dealt (`dealt + 1`; backend.go `deal`: `rev <= prevRevision`) is refused with the drift error —
@@ -156,8 +157,8 @@ theorem compact_canned (c : Cfg) (s : BState) (t : TxnReq) (h : classify t = .co
   rw [h]
 
 /-- Whatever is executed (answered without an error, other than the compactor's canned answer) is
-well-shaped: compare key = op key, no `range_end`, plain Get, put without flags, positive expectation
-on the guarded delete. "Never executed as something else." -/
+well-shaped: compare key = op key, no `range_end`, plain Get, put without flags, delete without `prev_kv`
+(/repo c09cadc), positive expectation on the guarded delete. "Never executed as something else." -/
 theorem executed_only_if_canonical (c : Cfg) (s : BState) (t : TxnReq) (hreq : ReqOK t)
     (hnc : classify t ≠ .compact) (r : TxnResp) (hok : (shimTxn c s t).1 = .ok r) : Canonical t := by
   rcases txn_cases t hreq with h | h | ⟨cm, p, rfl, hc, hf⟩ | ⟨call, hcall, he⟩ | h
@@ -198,23 +199,24 @@ theorem shim_sound_canonical (c : Cfg) (s : BState) (m : Mvcc) (t : TxnReq) (hca
     have hi := hexp cm (by simp)
     rw [hc.2.2.2.2] at hi
     exact sound_update_in c s m cm p g n hc hi.1 hi.2 hp hv hg hw ha
-  | gdelete cm d g n hc h0 hk he hg =>
+  | gdelete cm d g n hc h0 hk he hp hg =>
     have hi := hexp cm (by simp)
     rw [hc.2.2.2.2] at hi
-    exact sound_gdelete_in c s m cm d g n hc h0 hi.2 hk he hg hw ha
-  | udelete g d hk he hg => exact sound_udelete c s m g d hk he hg hw ha
+    exact sound_gdelete_in c s m cm d g n hc h0 hi.2 hk he hp hg hw ha
+  | udelete g d hk he hp hg => exact sound_udelete c s m g d hk he hp hg hw ha
 
 /-- The unguarded delete of a missing key (formerly answered `Succeeded = false`): the shim now
-answers `Succeeded = true`, writes nothing, returns the empty read — the projection etcd prescribes. -/
+answers `Succeeded = true`, writes nothing, returns the empty read — the projection etcd prescribes.
+(`hp`: the supported delete shape does not ask for `prev_kv` — /repo c09cadc; with it: `delete_with_prev_kv_rejected`.) -/
 theorem unguarded_delete_missing_flag (c : Cfg) (s : BState) (m : Mvcc) (g : RangeReq) (d : DelReq)
-    (hk : d.key ≠ []) (he : d.rangeEnd = []) (hg : PlainGet g d.key) (hw : WHyp c s d.key)
+    (hk : d.key ≠ []) (he : d.rangeEnd = []) (hp : d.prevKv = false) (hg : PlainGet g d.key) (hw : WHyp c s d.key)
     (ha : AbsAt c s m d.key) (hmiss : curKv c s d.key = none) :
     (shimTxn c s { compare := [], success := [.range g, .del d], failure := [] }).1 =
       .ok { ok := true, hdr := s.dealt + 1, resps := [.range (s.dealt + 1) [] 0 false], wrote := false } ∧
     Agree c s m { compare := [], success := [.range g, .del d], failure := [] } := by
-  have h := shim_udelete c s g d he hg hw
+  have h := shim_udelete c s g d he hp hg hw
   rw [hmiss] at h
-  exact ⟨h, sound_udelete c s m g d hk he hg hw ha⟩
+  exact ⟨h, sound_udelete c s m g d hk he hp hg hw ha⟩
 
 /-! ### the shaping laws: the response as a function of the BACKEND'S ANSWER
 
@@ -602,6 +604,142 @@ theorem op_options_rejected :
                failure := [.range { key := kA, rangeEnd := pfxHi }] } = .unsupported ∧
     classify { compare := [{ key := kA, int := 1002 }], success := [.del { key := kA }],
                failure := [.range { key := kA, keysOnly := true }] } = .unsupported := by decide
+
+/-! ### a delete that asks for `prev_kv` (/repo c09cadc)
+
+`pointDelete` (kv.go) looked only at `range_end`: `If(mod(k) = N).Then(DeleteRange{k, prev_kv}).Else(Get k)` and
+`Then(Get k, DeleteRange{k, prev_kv})` were recognised as the two delete shapes, executed as the plain delete and answered
+with kubebrain's range response — a client that sets `prev_kv` reads the deleted key-value from the `prev_kvs` of a DELETE
+response, which was not there: neither rejected nor answered as etcd would (`old_delete_prev_kv_executed`). `Canonical`
+used to say "the delete's `prev_kv` is free", so the hole sat inside the definition the general theorems are stated with.
+Now `DelReq.isPoint` (= `pointDelete`) requires `¬ prev_kv`, `Canonical.gdelete / udelete` require `d.prevKv = false`
+(`executed_only_if_canonical`, `shim_sound_canonical` are unchanged as stated and so say more / are about the narrower set),
+and the two shapes with `prev_kv` are refused like every other unsupported transaction (`delete_with_prev_kv_rejected`). -/
+
+/-- Kubernetes' two delete shapes with `prev_kv` set on the delete op (no Kubernetes release sends them; an etcd client may) -/
+def k8sDeletePrevKv (k : Bytes) (exp : Nat) : TxnReq :=
+  { compare := [{ key := k, int := exp }], success := [.del { key := k, prevKv := true }], failure := [.range { key := k }] }
+
+def k8sDeleteUnguardedPrevKv (k : Bytes) : TxnReq :=
+  { compare := [], success := [.range { key := k }, .del { key := k, prevKv := true }], failure := [] }
+
+/-- A DELETE SHAPE WHOSE DELETE OP ASKS FOR prev_kv IS REFUSED: on every state, for EVERY compare, Get and delete op
+(right or wrong key, correct / stale / zero expectation, existing or missing key, with or without `range_end`): both
+shapes — `If(cm).Then(DeleteRange d).Else(Range g)` and `Then(Range g, DeleteRange d)` — with `d.prev_kv` classify as
+unsupported, are answered with the "unsupported transaction" error, and the state is unchanged (nothing is executed,
+no revision is dealt). -/
+theorem delete_with_prev_kv_rejected (c : Cfg) (s : BState) (cm : Compare) (g : RangeReq) (d : DelReq)
+    (hp : d.prevKv = true) :
+    (classify { compare := [cm], success := [.del d], failure := [.range g] } = .unsupported ∧
+      shimTxn c s { compare := [cm], success := [.del d], failure := [.range g] } = (.error .unsupported, s)) ∧
+    (classify { compare := [], success := [.range g, .del d], failure := [] } = .unsupported ∧
+      shimTxn c s { compare := [], success := [.range g, .del d], failure := [] } = (.error .unsupported, s)) :=
+  ⟨⟨classify_gdelete_prevKv hp, (refused_unchanged c s _).1 (classify_gdelete_prevKv hp)⟩,
+   ⟨classify_udelete_prevKv hp, (refused_unchanged c s _).1 (classify_udelete_prevKv hp)⟩⟩
+
+/-- ... in particular Kubernetes' delete shapes with `prev_kv`, for every key and expectation -/
+theorem delete_with_prev_kv_rejected_k8s (c : Cfg) (s : BState) (k : Bytes) (exp : Nat) :
+    shimTxn c s (k8sDeletePrevKv k exp) = (.error .unsupported, s) ∧
+    shimTxn c s (k8sDeleteUnguardedPrevKv k) = (.error .unsupported, s) :=
+  ⟨(delete_with_prev_kv_rejected c s { key := k, int := exp } { key := k } { key := k, prevKv := true } rfl).1.2,
+   (delete_with_prev_kv_rejected c s {} { key := k } { key := k, prevKv := true } rfl).2.2⟩
+
+example : ({ key := kB, prevKv := true } : DelReq).prevKv = true ∧
+    shimTxn cfg0 s3 (k8sDeletePrevKv kB 1002) = (.error .unsupported, s3) ∧
+    shimTxn cfg0 s3 (k8sDeleteUnguardedPrevKv kD) = (.error .unsupported, s3) :=
+  ⟨rfl, (delete_with_prev_kv_rejected_k8s cfg0 s3 kB 1002).1, (delete_with_prev_kv_rejected_k8s cfg0 s3 kD 0).2⟩
+
+/-- neither is `Canonical`: what `executed_only_if_canonical` allows to be executed excludes them -/
+theorem delete_with_prev_kv_not_canonical (cm : Compare) (g : RangeReq) (d : DelReq) (hp : d.prevKv = true) :
+    ¬ Canonical { compare := [cm], success := [.del d], failure := [.range g] } ∧
+    ¬ Canonical { compare := [], success := [.range g, .del d], failure := [] } := by
+  constructor
+  · intro h
+    cases h with
+    | gdelete _ _ _ n _ _ _ _ hpk _ => rw [hp] at hpk; cases hpk
+  · intro h
+    cases h with
+    | udelete _ _ _ _ hpk _ => rw [hp] at hpk; cases hpk
+
+/-- the delete shapes WITHOUT `prev_kv` are recognised exactly as before: for a delete op without `prev_kv` the old
+and the repaired recogniser agree on every transaction of the two forms, and on a transaction of any other form both say no — the repair
+changes nothing else -/
+theorem old_and_new_delete_differ_only_at_prev_kv (t : TxnReq)
+    (h : ∀ d ∈ t.success, ∀ x, d = .del x → x.prevKv = false) : isDeleteOld t = isDelete t := by
+  unfold isDeleteOld isDelete
+  split
+  · rename_i g d h1 h2 h3
+    have := h (.del d) (by rw [h3]; simp) d rfl
+    simp [DelReq.isPoint, this]
+  · rename_i cm g d h1 h2 h3
+    have := h (.del d) (by rw [h3]; simp) d rfl
+    simp [DelReq.isPoint, this]
+  · rfl
+
+example : ∀ d ∈ (k8sDelete kB 1002).success, ∀ x, d = .del x → x.prevKv = false := by
+  intro d hd x hx
+  simp [k8sDelete] at hd
+  subst hd
+  cases hx
+  rfl
+
+/-- the transactions of the refutation: the guarded delete of /r/b with its correct expectation and the unguarded
+delete of /r/b, both with `prev_kv` on the delete op -/
+def delPrevG : TxnReq := k8sDeletePrevKv kB 1002
+def delPrevU : TxnReq := k8sDeleteUnguardedPrevKv kB
+
+/-- REFUTATION of the recogniser as it was before /repo c09cadc (`isDeleteOld` / `shimTxnOld2`) on `s3` (/r/a@1001,
+/r/b = v2 @1002, /r/c@1003): the guarded delete of /r/b with the correct expectation and `prev_kv`, and the unguarded one,
+were RECOGNISED as the plain delete shapes and EXECUTED — `Succeeded = true`, revision 1004 consumed, /r/b gone — and
+answered with a RANGE response holding the old key-value, no delete response. etcd (`refTxn m3`) executes the same delete
+but answers the delete op with a DELETE response (`deleted = 1`) whose `prev_kvs` (`refDelPrevKvs`) hold (/r/b, v2, 1002):
+the client that set `prev_kv` reads `Responses[i].ResponseDeleteRange.PrevKvs` — absent from kubebrain's answer. So the transaction was
+neither rejected nor answered as etcd would; the projection `TxnObs` (success flag, write revision, answers of the READS)
+is blind to it, both answers project alike — which is why `shim_sound` never objected and why the hole had to be closed
+in `Canonical`. With the repaired recogniser both are refused and `s3` is unchanged. -/
+theorem old_delete_prev_kv_executed :
+    -- recognised and executed as the plain delete
+    isDeleteOld delPrevG = some (1002, kB, true) ∧ classifyOld2 delPrevG = .delete 1002 kB true ∧
+    isDeleteOld delPrevU = some (0, kB, false) ∧ classifyOld2 delPrevU = .delete 0 kB false ∧
+    classifyOld2 delPrevG = classify (k8sDelete kB 1002) ∧ classifyOld2 delPrevU = classify (k8sDeleteUnguarded kB) ∧
+    (shimTxnOld2 cfg0 s3 delPrevG).1 =
+      .ok { ok := true, hdr := 1004, resps := [.range 1004 [(kB, v2, 1002)] 0 false], wrote := true } ∧
+    (shimTxnOld2 cfg0 s3 delPrevU).1 =
+      .ok { ok := true, hdr := 1004, resps := [.range 1004 [(kB, v2, 1002)] 0 false], wrote := true } ∧
+    (shimTxnOld2 cfg0 s3 delPrevG).1 = (shimTxn cfg0 s3 (k8sDelete kB 1002)).1 ∧
+    (shimTxnOld2 cfg0 s3 delPrevU).1 = (shimTxn cfg0 s3 (k8sDeleteUnguarded kB)).1 ∧
+    (shimTxnOld2 cfg0 s3 delPrevG).2.store = (shimTxn cfg0 s3 (k8sDelete kB 1002)).2.store ∧
+    (shimTxnOld2 cfg0 s3 delPrevU).2.store = (shimTxn cfg0 s3 (k8sDeleteUnguarded kB)).2.store ∧
+    -- the state changed: /r/b is gone, a revision was dealt
+    curKv cfg0 s3 kB = some (kB, v2, 1002) ∧ curKv cfg0 (shimTxnOld2 cfg0 s3 delPrevG).2 kB = none ∧
+    curKv cfg0 (shimTxnOld2 cfg0 s3 delPrevU).2 kB = none ∧
+    s3.dealt = 1003 ∧ (shimTxnOld2 cfg0 s3 delPrevG).2.dealt = 1004 ∧ (shimTxnOld2 cfg0 s3 delPrevU).2.dealt = 1004 ∧
+    -- etcd: a DELETE response, and the prev_kvs the client asked for
+    (refTxn m3 delPrevG).map (fun x => (x.1.ok, x.1.wrote, x.1.hdr, x.1.resps)) = .ok (true, true, 1004, [.del 1004 1]) ∧
+    (refTxn m3 delPrevU).map (fun x => (x.1.ok, x.1.wrote, x.1.hdr, x.1.resps)) =
+      .ok (true, true, 1004, [.range 1003 [(kB, v2, 1002)] 1 false, .del 1004 1]) ∧
+    refDelPrevKvs m3 { key := kB, prevKv := true } = [(kB, v2, 1002)] ∧
+    refDelPrevKvs m3 { key := kB } = [] ∧
+    -- the observable projection does not see the difference
+    ((shimTxnOld2 cfg0 s3 delPrevG).1.toOption.map (TxnResp.obs delPrevG) = (refTxn m3 delPrevG).toOption.map (fun x => x.1.obs delPrevG)) ∧
+    ((shimTxnOld2 cfg0 s3 delPrevU).1.toOption.map (TxnResp.obs delPrevU) = (refTxn m3 delPrevU).toOption.map (fun x => x.1.obs delPrevU)) ∧
+    -- repaired: recognised by nothing, refused, nothing executed
+    isDelete delPrevG = none ∧ isDelete delPrevU = none ∧ classify delPrevG = .unsupported ∧ classify delPrevU = .unsupported ∧
+    (shimTxn cfg0 s3 delPrevG).1 = .error .unsupported ∧ (shimTxn cfg0 s3 delPrevU).1 = .error .unsupported ∧
+    (shimTxn cfg0 s3 delPrevG).2.store = s3.store ∧ (shimTxn cfg0 s3 delPrevU).2.store = s3.store ∧
+    (shimTxn cfg0 s3 delPrevG).2.dealt = 1003 ∧ (shimTxn cfg0 s3 delPrevU).2.dealt = 1003 := by
+  and_intros <;> decide
+
+/-- the near misses of the correspondence check (kbcheck/props/c16.py `delete_prev_kv_misses`, witness script
+`delete_with_prev_kv_rejected`): guarded with the correct / a stale expectation on an existing key, guarded on a missing
+key, unguarded on an existing and on a missing key — all with `prev_kv` — classify as unsupported -/
+theorem delete_with_prev_kv_rejected_witness :
+    classify (k8sDeletePrevKv kB 1002) = .unsupported ∧ classify (k8sDeletePrevKv kB 1001) = .unsupported ∧
+    classify (k8sDeletePrevKv kD 1002) = .unsupported ∧ classify (k8sDeleteUnguardedPrevKv kB) = .unsupported ∧
+    classify (k8sDeleteUnguardedPrevKv kD) = .unsupported ∧
+    (shimTxn cfg0 s3 (k8sDeletePrevKv kB 1002)).1 = .error .unsupported ∧
+    (shimTxn cfg0 s3 (k8sDeletePrevKv kB 1002)).2.store = s3.store ∧
+    (shimTxn cfg0 s3 (k8sDeletePrevKv kB 1002)).2.dealt = s3.dealt := by decide
 
 /-- the unguarded delete of the missing /r/d on `s3`: `Succeeded = true`, as the reference answers -/
 theorem unguarded_delete_missing_witness :
@@ -1260,6 +1398,12 @@ example : WHyp cfg0 s3 kA ∧ WHyp cfg0 s3 kD := ⟨⟨rfl, by decide, by decide
 example : AbsAt cfg0 s3 m3 kA ∧ AbsAt cfg0 s3 m3 kD :=
   ⟨⟨by decide, by decide, by decide⟩, ⟨by decide, by decide, by decide⟩⟩
 example : curKv cfg0 s3 kD = none ∧ curKv cfg0 s3 kA ≠ none := by decide
+-- the delete op of Kubernetes' delete shapes: no `range_end`, no `prev_kv` (hypotheses `he`, `hp` of `unguarded_delete_missing_flag`, `Canonical.gdelete / udelete`)
+example : ({ key := kD } : DelReq).key ≠ [] ∧ ({ key := kD } : DelReq).rangeEnd = [] ∧ ({ key := kD } : DelReq).prevKv = false ∧
+    PlainGet { key := kD } ({ key := kD } : DelReq).key ∧
+    Canonical (k8sDeleteUnguarded kD) ∧ Canonical (k8sDelete kB 1002) :=
+  ⟨by decide, rfl, rfl, plainGet_of_key kD, .udelete _ _ (by decide) rfl rfl (plainGet_of_key kD),
+   .gdelete _ _ _ 1002 ⟨rfl, rfl, rfl, rfl, rfl⟩ (by decide) (by decide) rfl rfl (plainGet_of_key kB)⟩
 example : classify { compare := [{ key := kA, target := .version }], success := [.put { key := kA }] } = .unsupported := by
   decide
 example : ∃ (m m' : Mvcc) (w : WEvent) (old : KVFull), m.get w.key = some old ∧
